@@ -475,17 +475,17 @@ def snapCheck (st : St) (toks : List String) (opS impl : String) : List (String 
     | none => ((opS, impl) :: st.snap, st.snapRestart, none)
   else if op == "login" || op == "login-pat" || op == "logout" then
     -- who a connection is decides what it may see: its own earlier answers are no oracle any more
-    -- (connections 0 and 7 are always root: the runner logs them in again after a restart)
+    -- (connections 0 and 77 are always root: the runner logs them in again after a restart)
     let c := toks.getD 1 ""
-    let snap := if c == "0" || c == "7" then st.snap else st.snap.filter (fun e =>
+    let snap := if c == "0" || c == "77" then st.snap else st.snap.filter (fun e =>
       ((e.1.splitOn " ").filter (· ≠ "")).getD 1 "" != c)
     (snap, st.snapRestart, none)
   else if isIdentity then
-    -- connections do not survive a restart: only the root connection (0) and the HTTP root connection (7),
+    -- connections do not survive a restart: only the root connection (0) and the HTTP root connection (77),
     -- which the runner logs in again, can ask the same question afterwards
     let snap := if op == "restart" then st.snap.filter (fun e =>
         let c := ((e.1.splitOn " ").filter (· ≠ "")).getD 1 ""
-        c == "0" || c == "7") else st.snap
+        c == "0" || c == "77") else st.snap
     (snap, st.snapRestart || op == "restart", none)
   else ([], false, none)
 
